@@ -6,8 +6,13 @@ package c12
 // with the y axis pointing up.
 
 import (
+	"bytes"
+	"encoding/base64"
 	"encoding/xml"
 	"fmt"
+	"image"
+	"image/color"
+	"image/png"
 	"math"
 	"strconv"
 	"strings"
@@ -618,6 +623,7 @@ func interpretSVG(doc []byte) *displayList {
 		props   svgProps
 		ctm     aff
 		opacity float64
+		image   *svgImage
 	}
 	var shapes []pending
 	for {
@@ -642,7 +648,7 @@ func interpretSVG(doc []byte) *displayList {
 				}
 				if !fr.props.apply(a.Name.Local, a.Value, dl) && !svgKnownIgnorable[a.Name.Local] {
 					switch t.Name.Local {
-					case "linearGradient", "stop", "svg":
+					case "linearGradient", "stop", "svg", "image":
 					default:
 						dl.tally("svg-attribute-not-interpreted:" + a.Name.Local)
 					}
@@ -835,6 +841,13 @@ func interpretSVG(doc []byte) *displayList {
 					break
 				}
 				shapes = append(shapes, pending{sps: sps, d: am["d"], props: fr.props, ctm: fr.ctm, opacity: fr.opacity})
+			case "image":
+				if inDefs > 0 {
+					break
+				}
+				if im := parseSVGImage(am, dl); im != nil {
+					shapes = append(shapes, pending{ctm: fr.ctm, opacity: fr.opacity, image: im})
+				}
 			case "style":
 				dl.tally("svg-style-element-not-interpreted")
 			default:
@@ -859,6 +872,28 @@ func interpretSVG(doc []byte) *displayList {
 	// paint the shapes in document order (gradients may be defined anywhere in the document)
 	for _, sh := range shapes {
 		total := toMM.mul(sh.ctm)
+		if im := sh.image; im != nil {
+			// 5.7 / 7.8: the image is fitted into the viewport (x,y,width,height) of the element's user
+			// space under preserveAspectRatio (default xMidYMid meet); its first row is at the top (y)
+			sx, sy := im.width/float64(im.w), im.height/float64(im.h)
+			ox, oy := im.x, im.y
+			if im.par != "none" && math.Abs(sx-sy) > 1e-12*math.Max(sx, sy) {
+				sc := math.Min(sx, sy)
+				ox += (im.width - sc*float64(im.w)) / 2
+				oy += (im.height - sc*float64(im.h)) / 2
+				sx, sy = sc, sc
+				dl.tally("svg-image-viewport-aspect-differs(xMidYMid meet)")
+			}
+			from := total.mul(aff{sx, 0, 0, sy, ox, oy})
+			ra, ok := newRaster(im.w, im.h, im.pix, from, sh.opacity, fmt.Sprintf("%s %dx%d", im.mime, im.w, im.h))
+			if !ok {
+				dl.tally("svg-image-with-zero-size")
+				continue
+			}
+			dl.items = append(dl.items, item{role: "image", reg: ra.quad("svg"), paint: paint{img: ra},
+				src: fmt.Sprintf(`<image x="%g" y="%g" width="%g" height="%g" transform="%s" href="data:%s;…">`, im.x, im.y, im.width, im.height, im.transform, im.mime)})
+			continue
+		}
 		mkPaint := func(spec string, opacity float64, what string) (paint, bool) {
 			spec = strings.TrimSpace(spec)
 			if spec == "none" || spec == "" {
@@ -971,4 +1006,115 @@ func interpretSVG(doc []byte) *displayList {
 		}
 	}
 	return dl
+}
+
+// ---- images (SVG 1.1 §5.7) -----------------------------------------------------------------
+
+type svgImage struct {
+	x, y, width, height float64
+	par                 string
+	transform           string
+	mime                string
+	w, h                int
+	pix                 []colour
+}
+
+// parseSVGImage reads the geometry attributes and decodes the data: URI (RFC 2397) with the Go
+// standard library's PNG/JPEG decoders.
+func parseSVGImage(am map[string]string, dl *displayList) *svgImage {
+	im := &svgImage{par: "xMidYMid meet", transform: am["transform"]}
+	for _, k := range []struct {
+		name string
+		dst  *float64
+		req  bool
+	}{{"x", &im.x, false}, {"y", &im.y, false}, {"width", &im.width, true}, {"height", &im.height, true}} {
+		s, ok := am[k.name]
+		if !ok {
+			if k.req {
+				dl.problem("svg-bad-value", "image without %s", k.name)
+				return nil
+			}
+			continue
+		}
+		sc := &svgScanner{s: strings.TrimSpace(s)}
+		v, ok := sc.number()
+		if rest := strings.TrimSpace(sc.s[sc.pos:]); !ok || (rest != "" && rest != "px") {
+			dl.problem("svg-bad-value", "image %s=%q", k.name, s)
+			return nil
+		}
+		*k.dst = v
+	}
+	if im.width <= 0 || im.height <= 0 {
+		return nil // disables rendering of the element
+	}
+	if p, ok := am["preserveAspectRatio"]; ok {
+		p = strings.TrimSpace(p)
+		if p != "none" && p != "xMidYMid" && p != "xMidYMid meet" {
+			dl.problem("svg-interpreter-limit", "preserveAspectRatio=%q", p)
+			return nil
+		}
+		if p == "none" {
+			im.par = "none"
+		}
+	}
+	href, ok := am["href"]
+	if !ok {
+		dl.problem("svg-bad-value", "image without href")
+		return nil
+	}
+	if !strings.HasPrefix(href, "data:") {
+		dl.problem("svg-interpreter-limit", "image href %q is not a data: URI", clipStr(href, 40))
+		return nil
+	}
+	comma := strings.IndexByte(href, ',')
+	if comma < 0 {
+		dl.problem("svg-bad-value", "data: URI without a comma")
+		return nil
+	}
+	meta := strings.Split(href[5:comma], ";")
+	im.mime = meta[0]
+	b64 := false
+	for _, m := range meta[1:] {
+		if m == "base64" {
+			b64 = true
+		}
+	}
+	if !b64 {
+		dl.problem("svg-interpreter-limit", "data: URI that is not base64")
+		return nil
+	}
+	raw, err := base64.StdEncoding.DecodeString(strings.Map(func(r rune) rune {
+		if r == ' ' || r == '\n' || r == '\r' || r == '\t' {
+			return -1
+		}
+		return r
+	}, href[comma+1:]))
+	if err != nil {
+		dl.problem("svg-bad-image", "base64: %v", err)
+		return nil
+	}
+	var img image.Image
+	switch im.mime {
+	case "image/png":
+		img, err = png.Decode(bytes.NewReader(raw))
+	case "image/jpeg":
+		dl.problem("svg-interpreter-limit", "JPEG image (lossy encoding is outside the bound)")
+		return nil
+	default:
+		dl.problem("svg-bad-image", "media type %q", im.mime)
+		return nil
+	}
+	if err != nil {
+		dl.problem("svg-bad-image", "%s does not decode: %v", im.mime, err)
+		return nil
+	}
+	b := img.Bounds()
+	im.w, im.h = b.Dx(), b.Dy()
+	for y := b.Min.Y; y < b.Max.Y; y++ {
+		for x := b.Min.X; x < b.Max.X; x++ {
+			c := color.NRGBA64Model.Convert(img.At(x, y)).(color.NRGBA64)
+			im.pix = append(im.pix, colour{float64(c.R) / 65535, float64(c.G) / 65535, float64(c.B) / 65535, float64(c.A) / 65535})
+		}
+	}
+	return im
 }
